@@ -366,3 +366,32 @@ Print Assumptions C11_exits_are_calls.
 Example C11_exit_inv_unfolds : forall g ls, ExitInv g ls <->
   (forall x, In x (exits g) -> called g x) /\ (forall t i, in_call (ls t) = Some i -> called g i).
 Proof. intros g ls. unfold ExitInv. tauto. Qed.
+
+(* ================================================================== set-level completion facts (Proofs/BulkOutcome.v) *)
+From Pika Require Import Proofs.BulkOutcome.
+
+(* in every reachable state: no index's return is logged twice, a thread inside f(i) has not yet returned from
+   it, and no two threads are inside f for the same index *)
+Theorem C11_no_concurrent_calls_of_one_index : forall cf, guard cf -> forall sched,
+  let c := brun cf sched in
+  NoDup (exits (fst c)) /\
+  (forall t i, in_call (snd c t) = Some i -> ~ In i (exits (fst c))) /\
+  (forall t t' i, in_call (snd c t) = Some i -> in_call (snd c t') = Some i -> t = t').
+Proof. exact xinv_run. Qed.
+Print Assumptions C11_no_concurrent_calls_of_one_index.
+
+(* at the completion every entered call has returned — as a set of indices, not only as a count *)
+Theorem C11_completion_after_every_call_returned : forall cf sched, guard cf ->
+  let g := fst (brun cf sched) in
+  sigs g <> [] -> forall j, called g j -> In j (exits g).
+Proof. exact all_called_exited. Qed.
+Print Assumptions C11_completion_after_every_call_returned.
+
+(* the completion is a value exactly when no index below n throws: the pool bulk and the generic loop of
+   bulk.hpp ([C11_generic_bulk_value] / [_error]) agree on the kind of outcome, for every schedule *)
+Theorem C11_pool_value_iff_nothing_throws : forall cf sched, guard cf ->
+  let g := fst (brun cf sched) in
+  forall s, In s (sigs g) ->
+  ((exists v, sg s = SValue v) <-> (forall j, j < cn cf -> cthrows cf j = false)).
+Proof. exact pool_outcome_kind. Qed.
+Print Assumptions C11_pool_value_iff_nothing_throws.
